@@ -28,6 +28,8 @@ type Duo struct {
 	Wire []*WireEv
 	// Delivered maps datagram id -> true once it was handed to a socket.
 	Delivered map[uint64]bool
+	// AroundSignal, when set, wraps every Signal (for before/after oracles).
+	AroundSignal func(from, to *AgentH, c ice.Candidate, do func())
 }
 
 // WireEv is one datagram seen on the wire.
@@ -117,6 +119,14 @@ func (d *Duo) Signal(from, to *AgentH, c ice.Candidate) error {
 		return err
 	}
 	d.C.Logf("signal %s->%s %s %s", from.Name, to.Name, c.Type(), CandAddr(c))
+	if d.AroundSignal != nil {
+		var err error
+		d.AroundSignal(from, to, rc, func() {
+			err = to.A.AddRemoteCandidate(rc)
+			d.S.Settle()
+		})
+		return err
+	}
 	return to.A.AddRemoteCandidate(rc)
 }
 
